@@ -4,37 +4,37 @@ import GoluaVerif.Model.CoProto
 namespace GoluaVerif.Generated.ThreadEvents
 open GoluaVerif.Model.CoProto
 
-/-- runtime/thread.go:172 -/
+/-- runtime/thread.go:176 -/
 def p_Resume : Proc := ⟨"Resume", [
   [.lock .self, .unlock .self],
   [.lock .self, .lock .peer, .set .self, .unlock .self, .unlock .peer, .send .self, .recv .peer]]⟩
 
-/-- runtime/thread.go:200 -/
+/-- runtime/thread.go:204 -/
 def p_Close : Proc := ⟨"Close", [
   [.lock .self, .unlock .self],
   [.lock .self, .lock .peer, .set .self, .unlock .self, .unlock .peer, .send .self, .recv .peer]]⟩
 
-/-- runtime/thread.go:228 -/
+/-- runtime/thread.go:232 -/
 def p_Yield : Proc := ⟨"Yield", [
   [.lock .self, .unlock .self],
   [.lock .self, .lock .peer, .set .self, .unlock .self, .unlock .peer, .send .peer, .recv .self]]⟩
 
-/-- runtime/thread.go:252 -/
+/-- runtime/thread.go:256 -/
 def p_end : Proc := ⟨"end", [
   [.run, .lock .self, .lock .peer, .closeCh .self, .set .self, .touch, .send .peer, .unlock .peer, .unlock .self]]⟩
 
-/-- runtime/thread.go:133 -/
+/-- runtime/thread.go:137 -/
 def p_Start : Proc := ⟨"Start", [
   [.touch, .spawn]]⟩
 
 def p_Start_go : Proc := ⟨"Start.go", [
   [.recv .self, .touch, .run, .touch, .callEnd]]⟩
 
-/-- runtime/thread.go:290 -/
+/-- runtime/thread.go:294 -/
 def p_getResumeValues : Proc := ⟨"getResumeValues", [
   [.recv .self]]⟩
 
-/-- runtime/thread.go:298 -/
+/-- runtime/thread.go:302 -/
 def p_sendResumeValues : Proc := ⟨"sendResumeValues", [
   [.send .self]]⟩
 
